@@ -36,6 +36,12 @@ CLAIMED = {
         "plus a per-run correspondence of the Gallina model with the real classes on generated type compositions/values (evaluated inside Coq) and a direct check of the laws on the real results.",
    technique="Rocq proof by structural induction on a Gallina model of to_bits/from_bits; model tied to code by vm_compute correspondence on generated types",
    design_ref="DESIGN.md §6 C17"),
+ "C18": dict(
+   text="Proof. 35 unbounded theorems (all widths, list lengths, batch sizes, values): each helper's Gallina model, written to mirror the helper's recursion (tree folds, batching, per-batch popcount tables + widening adders, "
+        "reversed-fold min/max, choose_first, CRC register), equals its mathematical definition (left fold for associative operators, population count, index permutation, first extremum, GF(2) polynomial remainder; multi-bit CRC = iterated single-bit). "
+        "Model tied to the real helpers on every run by exhaustive small-width + seeded wide cases compared inside Coq, and the definitions are also checked directly on the real results. The emitted-VHDL half of the helpers is not covered here (constants only).",
+   technique="Rocq proof by induction on Gallina models of the helpers; correspondence by vm_compute on generated cases",
+   design_ref="DESIGN.md §6 C18"),
 }
 ALL = ["C%02d" % i for i in range(1, 21)]
 
